@@ -23,13 +23,73 @@ theorem reportOf_i (N : Net L K) (x : List K) (hids : N.ids.Nodup) {b : Branch L
     (hb : b ∈ N.branches) : (N.reportOf x).i b.id = N.curOf (N.solOf x) b := by
   simp [Net.reportOf, get?_of_mem N hids hb]
 
-theorem kclResidual_report (N : Net L K) (x : List K) (wf : N.WF) (n : L) :
+theorem kclResidual_report_all (N : Net L K) (x : List K) (hids : N.ids.Nodup) (n : L) :
     kclResidual N (N.reportOf x) n
       = (N.branches.map fun b => b.dir n * N.J (N.solOf x) b).sum := by
   unfold kclResidual
   apply congrArg; apply List.map_congr_left
   intro b hb
-  rw [reportOf_i N x wf.ids_nodup hb, phys_curOf, incidence_eq_dir b n (wf.no_self_loop b hb)]
+  rw [reportOf_i N x hids hb, phys_curOf, incidence_eq_dir_all b n]
+
+theorem kclResidual_report (N : Net L K) (x : List K) (wf : N.WF) (n : L) :
+    kclResidual N (N.reportOf x) n
+      = (N.branches.map fun b => b.dir n * N.J (N.solOf x) b).sum :=
+  kclResidual_report_all N x wf.ids_nodup n
+
+/-- soundness for every network `Network.__post_init__` accepts (distinct ids, reference label
+present) — self-loop branches included; published as `C01_sound_selfloops`
+(CC/Properties/C01SelfLoop.lean) -/
+theorem sound_all (N : Net L K) (x : List K) (hids : N.ids.Nodup) (hzm : N.zero ∈ N.nodeLabels)
+    (hx : x.length = N.nodes.length + N.vsIds.length)
+    (h : matVec N.mnaA x = N.mnaB) :
+    (∀ n ∈ N.allLabels, N.potential x n = .ok ((N.reportOf x).pot n)) ∧
+    (∀ b ∈ N.branches, N.voltage x b.id = .ok ((N.reportOf x).v b.id) ∧
+                        N.current x b.id = .ok ((N.reportOf x).i b.id)) ∧
+    CircuitEqs N (N.reportOf x) := by
+  obtain ⟨rowsN, rowsV⟩ := (matVec_iff_rows N hids x hx).mp h
+  set s := N.solOf x with hs
+  have hkclNode : ∀ n ∈ N.nodes, kclResidual N (N.reportOf x) n = 0 := by
+    intro n hn
+    rw [kclResidual_report_all N x hids, kcl_identity_all N s hids n hn, rowsN n hn, sub_self]
+  refine ⟨?_, ?_, ?_⟩
+  · intro n hn
+    exact potential_ok N x n ((mem_allLabels_iff N hzm n).mp hn)
+  · intro b hb
+    rw [reportOf_v N x hids hb, reportOf_i N x hids hb]
+    exact ⟨voltage_ok N x hids b hb, current_ok N x hids b hb⟩
+  · refine ⟨?_, ?_, ?_, ?_⟩
+    · simp [Net.reportOf, Net.pot]
+    · intro b hb
+      unfold voltResidual
+      rw [reportOf_v N x hids hb]
+      simp [Net.reportOf, Net.vOf]
+    · intro b hb
+      rw [reportOf_v N x hids hb, reportOf_i N x hids hb]
+      apply law_of_rows
+      intro hv
+      have hmem : b ∈ N.vsSorted :=
+        (vsSorted_perm N hids).mem_iff.mpr (List.mem_filter.mpr ⟨hb, hv⟩)
+      have := rowsV b hmem
+      rw [rowVS_eq_all N s b hb] at this
+      exact this
+    · intro n hn
+      have hn' := (mem_allLabels_iff N hzm n).mp hn
+      by_cases hz : n = N.zero
+      · subst hz
+        have hall := sum_kcl_all_labels N (fun b => N.J s b)
+        rw [sum_labels_split N hzm] at hall
+        have hnodes : (N.nodes.map fun n => (N.branches.map fun b => incidence b n * N.J s b).sum).sum = 0 := by
+          apply List.sum_eq_zero
+          intro y hy
+          obtain ⟨m, hm, rfl⟩ := List.mem_map.mp hy
+          have := hkclNode m hm
+          rw [kclResidual_report_all N x hids] at this
+          rw [← this]
+          rfl
+        rw [hnodes, add_zero] at hall
+        rw [kclResidual_report_all N x hids, ← hall]
+        rfl
+      · exact hkclNode n ((mem_nodes_iff N n).mpr ⟨hn', hz⟩)
 
 /-- **C01 (soundness).**  Whatever vector satisfies the matrix equation the code builds,
 the accessors never fail on the network's own labels and ids, and what they report solves
@@ -42,53 +102,8 @@ theorem C01_sound (N : Net L K) (x : List K) (wf : N.WF)
     (∀ n ∈ N.allLabels, N.potential x n = .ok ((N.reportOf x).pot n)) ∧
     (∀ b ∈ N.branches, N.voltage x b.id = .ok ((N.reportOf x).v b.id) ∧
                         N.current x b.id = .ok ((N.reportOf x).i b.id)) ∧
-    CircuitEqs N (N.reportOf x) := by
-  obtain ⟨rowsN, rowsV⟩ := (matVec_iff_rows N wf.ids_nodup x hx).mp h
-  set s := N.solOf x with hs
-  have hkclNode : ∀ n ∈ N.nodes, kclResidual N (N.reportOf x) n = 0 := by
-    intro n hn
-    rw [kclResidual_report N x wf, kcl_identity N s wf.ids_nodup wf.no_self_loop n hn, rowsN n hn, sub_self]
-  refine ⟨?_, ?_, ?_⟩
-  · intro n hn
-    exact potential_ok N x n ((mem_allLabels_iff N wf.zero_mem n).mp hn)
-  · intro b hb
-    rw [reportOf_v N x wf.ids_nodup hb, reportOf_i N x wf.ids_nodup hb]
-    exact ⟨voltage_ok N x wf.ids_nodup b hb, current_ok N x wf.ids_nodup b hb⟩
-  · refine ⟨?_, ?_, ?_, ?_⟩
-    · simp [Net.reportOf, Net.pot]
-    · intro b hb
-      unfold voltResidual
-      rw [reportOf_v N x wf.ids_nodup hb]
-      simp [Net.reportOf, Net.vOf]
-    · intro b hb
-      rw [reportOf_v N x wf.ids_nodup hb, reportOf_i N x wf.ids_nodup hb]
-      apply law_of_rows
-      intro hv
-      have hmem : b ∈ N.vsSorted :=
-        (vsSorted_perm N wf.ids_nodup).mem_iff.mpr (List.mem_filter.mpr ⟨hb, hv⟩)
-      have := rowsV b hmem
-      rw [rowVS_eq N s b hb (wf.no_self_loop b hb)] at this
-      exact this
-    · intro n hn
-      have hn' := (mem_allLabels_iff N wf.zero_mem n).mp hn
-      by_cases hz : n = N.zero
-      · subst hz
-        have hall := sum_kcl_all_labels N (fun b => N.J s b)
-        rw [sum_labels_split N wf.zero_mem] at hall
-        have hnodes : (N.nodes.map fun n => (N.branches.map fun b => incidence b n * N.J s b).sum).sum = 0 := by
-          apply List.sum_eq_zero
-          intro y hy
-          obtain ⟨m, hm, rfl⟩ := List.mem_map.mp hy
-          have := hkclNode m hm
-          rw [kclResidual_report N x wf] at this
-          rw [← this]
-          apply congrArg; apply List.map_congr_left
-          intro b hb; rw [incidence_eq_dir b m (wf.no_self_loop b hb)]
-        rw [hnodes, add_zero] at hall
-        rw [kclResidual_report N x wf, ← hall]
-        apply congrArg; apply List.map_congr_left
-        intro b hb; rw [incidence_eq_dir b _ (wf.no_self_loop b hb)]
-      · exact hkclNode n ((mem_nodes_iff N n).mpr ⟨hn', hz⟩)
+    CircuitEqs N (N.reportOf x) :=
+  sound_all N x wf.ids_nodup wf.zero_mem hx h
 
 /-- **C01 (reference node).**  Currents balance at the reference node although it has no
 row in the matrix: its balance is minus the sum of all other rows. -/
